@@ -727,6 +727,34 @@ func main() {
 	w("def leaveRemapGuard : String := %s", leanStr(remapGuard))
 	w("")
 
+	// ---- tableGameOpen's retry loop: the statuses it takes for "a hand is already running" (then it gives up quietly)
+	retryStatuses := []string{"not-found"}
+	if fd := findFunc(teStage, "tableEngine", "tableGameOpen"); fd != nil {
+		ast.Inspect(fd.Body, func(n ast.Node) bool {
+			a, ok := n.(*ast.AssignStmt)
+			if !ok || len(a.Lhs) != 1 || len(a.Rhs) != 1 || src(a.Lhs[0]) != "gameStartingStatuses" {
+				return true
+			}
+			if cl, ok := a.Rhs[0].(*ast.CompositeLit); ok {
+				retryStatuses = []string{}
+				for _, e := range cl.Elts {
+					retryStatuses = append(retryStatuses, src(e))
+				}
+			}
+			return true
+		})
+		// how the list is used
+		ast.Inspect(fd.Body, func(n ast.Node) bool {
+			a, ok := n.(*ast.AssignStmt)
+			if ok && len(a.Lhs) == 1 && len(a.Rhs) == 1 && src(a.Lhs[0]) == "isGameRunning" {
+				retryStatuses = append(retryStatuses, "isGameRunning := "+src(a.Rhs[0]))
+			}
+			return true
+		})
+	}
+	w("def retryRunningStatuses : List String := %s", leanList(retryStatuses))
+	w("")
+
 	// ---- statistics: the event symbol validateGameStatisticGameState compares with
 	statEv := "unknown"
 	if fd := findFunc(stats, "tableEngine", "validateGameStatisticGameState"); fd != nil && len(fd.Body.List) > 0 {
